@@ -1166,6 +1166,13 @@ class SQLObject(with_metaclass(declarative.DeclarativeMeta, object)):
 
         # _creating is special, see _SO_setValue
         if self.sqlmeta._creating or self.sqlmeta.lazyUpdate:
+            # refuse an unknown keyword before anything is cached or queued
+            for name in extra:
+                if not hasattr(self.__class__, name) and \
+                        name not in self.sqlmeta.columns:
+                    raise TypeError(
+                        "%s.set() got an unexpected keyword argument "
+                        "%s" % (self.__class__.__name__, name))
             toCache = {}
             for name, value in kw.items():
                 from_python = getattr(self, '_SO_from_python_%s' % name, None)
